@@ -184,7 +184,7 @@ class Builder:
             old = self.lang
             self.emit('\\foreignlanguage{%s}{' % BABEL[new])
             self.lang = new
-            evs = self.seq(depth + 2, allow_side=False)
+            evs = self.lang_body(depth)
             self.emit('}')
             self.lang = old
             return evs
@@ -193,11 +193,29 @@ class Builder:
             old = self.lang
             self.emit('\\begin{otherlanguage}{%s} ' % BABEL[new])
             self.lang = new
-            evs = self.seq(depth + 2, allow_side=False)
+            evs = self.lang_body(depth)
             self.emit(' \\end{otherlanguage}')
             self.lang = old
             return evs
         raise ValueError(k)
+
+    def lang_body(self, depth):
+        """content of a language scope; possibly with a nested soft switch (also to the very same language)
+        followed by more formulas of the outer scope"""
+        r = self.rnd
+        evs = self.seq(depth + 2, allow_side=False)
+        if r.random() < .5:
+            outer = self.lang
+            inner = r.choice([outer, outer, 'en', 'de', 'ru'])
+            env = r.random() < .3
+            self.emit(' \\begin{otherlanguage*}{%s} ' % BABEL[inner] if env else ' \\foreignlanguage{%s}{' % BABEL[inner])
+            self.lang = inner
+            evs += [self.formula()]
+            self.emit(' \\end{otherlanguage*} ' if env else '} ')
+            self.lang = outer
+            evs += [self.formula()]
+            self.ctx.add('lang_nested_same' if inner == outer else 'lang_nested')
+        return evs
 
     def seq(self, depth, allow_side=True):
         evs = []
@@ -313,7 +331,7 @@ class C10(core.Check):
         q = {'formulas_judged': 20000, 'with_punctuation': 3000, 'second_copies': 300,
              'ml_docs_with_two_languages': 200}
         for c in ('plain', 'unkarg', 'declarg', 'userarg', 'twice', 'item', 'footnote', 'group', 'cell', 'heading', 'heading_lang',
-                  'caption', 'lang_foreign', 'lang_select', 'lang_env'):
+                  'caption', 'lang_foreign', 'lang_select', 'lang_env', 'lang_nested', 'lang_nested_same'):
             q['ctx_' + c] = 100
         return q
 
